@@ -142,7 +142,42 @@ static void mode_ms(void){
   if(md) opus_multistream_decoder_destroy(md); if(pd) opus_projection_decoder_destroy(pd);
 }
 
+
+/* ---------------------------------------------------------------- value-guided search for extreme decoder output
+ * (1+1) hill climbing on the peak magnitude of the float output: steers payload bytes towards the symbol
+ * extremes (largest energies / gains / pulse counts) that uniformly random payloads essentially never reach.
+ * Oracle unchanged: every sample finite, also in the following concealment and after a benign packet. */
+static double peak_of(OpusDecoder *d,const unsigned char *p,int len,int ch,float *out,int *ret,int *nonfinite){ unsigned char *ex=vc_exact_copy(p,len); opus_decoder_ctl(d,OPUS_RESET_STATE); *ret=opus_decode_float(d,ex,len,out,5760,0); free(ex); double mx=0; *nonfinite=0; if(*ret>0) for(int i=0;i<*ret*ch;i++){ if(!isfinite(out[i])){ *nonfinite=1; return 1e300; } double a=fabs(out[i]); if(a>mx) mx=a; } return mx; }
+static void mode_climb(void){
+  vc_rng r; vc_case_rng(&r,4); vk_pool_init(); int err; int Fs=VC_PICK(&r,vk_rates), ch=1+vc_below(&r,2);
+  OpusDecoder *d=opus_decoder_create(Fs,ch,&err); static float out[5760*2]; static unsigned char best[1600], cand[1600];
+  int len=vk_hostile(&r,best,vc_range(&r,30,400),0); if(len<8){ len=40; for(int i=0;i<len;i++) best[i]=vc_u32(&r); }
+  if(vc_chance(&r,2,3)){ best[0]=(unsigned char)((vc_range(&r,12,31)<<3)|(vc_below(&r,2)<<2)); /* CELT / hybrid, code 0 */ }
+  int ret,nf; double bp=peak_of(d,best,len,ch,out,&ret,&nf); int iters=(int)vc_argl("iters",80); int improved=0;
+  for(int it=0;it<iters&&!nf;it++){ memcpy(cand,best,len); int cl=len; int op=vc_below(&r,8);
+    if(op<3){ int a=1+vc_below(&r,cl-1), n=1+vc_below(&r,op==0?4:40); unsigned char v=vc_chance(&r,2,3)?0xFF:0x00; for(int i=a;i<a+n&&i<cl;i++) cand[i]=v; }
+    else if(op==3){ cand[1+vc_below(&r,cl-1)]=vc_u32(&r); }
+    else if(op==4){ int a=1+vc_below(&r,cl<12?cl-1:11); cand[a]^=1u<<vc_below(&r,8); }
+    else if(op==5&&cl<1200){ int add=1+vc_below(&r,30); memset(cand+cl,vc_chance(&r,1,2)?0xFF:0,add); cl+=add; }
+    else if(op==6&&cl>12){ cl-=1+vc_below(&r,8); }
+    else { int a=1+vc_below(&r,cl-1); for(int i=a;i<cl;i++) cand[i]=0xFF; }
+    int r2,nf2; double p2=peak_of(d,cand,cl,ch,out,&r2,&nf2);
+    if(nf2){ memcpy(best,cand,cl); len=cl; nf=1; ret=r2; break; }
+    if(r2>0&&p2>=bp){ if(p2>bp) improved++; memcpy(best,cand,cl); len=cl; bp=p2; ret=r2; } }
+  vc_count("climb_decodes",iters+1); vc_max("climb_peak",bp<1e299?bp:-1);
+  char hx[64]; vc_hex(hx,sizeof hx,best,len<24?len:24);
+  if(nf) vc_viol("output:non-finite","hill-climbed packet decodes to non-finite samples: Fs=%d ch=%d len=%d head=%s",Fs,ch,len,hx);
+  else { /* history clause: concealment and a benign packet after the extreme one */
+    unsigned char *ex=vc_exact_copy(best,len); opus_decoder_ctl(d,OPUS_RESET_STATE); int r0=opus_decode_float(d,ex,len,out,5760,0); free(ex);
+    if(r0>0){ int r1=opus_decode_float(d,NULL,0,out,r0,0); for(int i=0;r1>0&&i<r1*ch;i++) if(!isfinite(out[i])){ vc_viol("output:non-finite","concealment after extreme packet not finite (head=%s)",hx); break; }
+      vk_stream *st=&vk_pool[vc_below(&r,vk_pool_n)]; if(st->n>0){ int r2=opus_decode_float(d,st->pkt[0],st->len[0],out,5760,0); for(int i=0;r2>0&&i<r2*ch;i++) if(!isfinite(out[i])){ vc_viol("output:non-finite","benign packet after extreme packet not finite (head=%s)",hx); break; } } }
+    int pc= bp<1?0: bp<10?1: bp<1e3?2: bp<1e5?3: bp<3e6?4:5; vc_sig3(0xC11B,(uint64_t)(best[0]>>3)|((uint64_t)pc<<5),(uint64_t)ch|((uint64_t)(Fs/4000)<<2));
+    if(pc>=4) vc_count("climb_extreme_gain_reached",1);
+    if(vc_want_sample()) vc_sample("{\"mode\":\"climb\",\"Fs\":%d,\"ch\":%d,\"len\":%d,\"head\":\"%s\",\"peak\":%.4g,\"improvements\":%d}",Fs,ch,len,hx,bp,improved); }
+  opus_decoder_destroy(d);
+}
+
 int main(int argc,char **argv){
-  static const vc_mode_t modes[]={{"single",mode_single},{"ms",mode_ms},{0,0}};
+  static const vc_mode_t modes[]={{"single",mode_single},{"ms",mode_ms},{"climb",mode_climb},{0,0}};
   return vc_main(argc,argv,"C01",modes);
 }
